@@ -2,7 +2,7 @@ from vlib import Harness
 
 # one configuration per shard (see harness/c17_splay.cpp / c17_lru.cpp main): the number of shards equals the number of
 # configurations of the tier, so every configuration gets its own process (the harness also copes with fewer shards).
-SPLAY_CONFIGS = {"quick": 7, "thorough": 10}
+SPLAY_CONFIGS = {"quick": 7, "thorough": 9}
 LRU_CONFIGS = {"quick": 2, "thorough": 2}
 
 
@@ -16,15 +16,18 @@ def plan(tier):
         "runs": [(lru, ["--tier", tier], LRU_CONFIGS[t]),
                  (splay, ["--tier", tier], SPLAY_CONFIGS[t])],
         "rule": "BFS closure (frontier empty) over operation histories, one closure per configuration. "
-                "LRU: LruCacheSet<int> and LruCacheMap<int,int>, keys {0..3} (thorough {0..5}), values {0,1}; ops put, touch, touch_if_exists, "
-                "erase, erase_if_exists, get_touch, pop (non-empty only), clear, incl. all ops on absent keys (exceptions are transitions); "
-                "states de-duplicated on the internal list_ (keys, values, order), the map_ index (key -> list position) and its bucket count. "
-                "SplayTree: set flavour over keys {0..5} (thorough {0..8}) x {less/int, greater/int, less/Tracked}; multiset flavour over keys "
-                "{0,1,2} with multiplicity <= 3 (thorough: <= 5 per key and <= 12 nodes, which includes every history with multiplicity <= 4; plus "
-                "less/int over keys {0..3} with multiplicity <= 2 and keys {0,1} with multiplicity <= 5) x {less/int, greater/int, greater/Tracked}; plus an unguarded 2-key set configuration for ASan confirmation; ops insert, exists, "
-                "find, erase(key), erase(node from find), clear, all enabled in every state incl. the empty tree and after clear(); states "
-                "de-duplicated on (size_, tree shape with keys in pre-order with null markers). Every reached state is also destroyed under the "
-                "allocation ledger / key registry. states = distinct canonical states, transitions = real tlx calls compared with the reference",
+                "LRU: LruCacheSet<int> and LruCacheMap<int,int>, keys {0..3} (thorough: set {0..5}, map {0..4}), values {0,1}; ops put, touch, "
+                "touch_if_exists, erase, erase_if_exists, get_touch, pop (non-empty only), clear, incl. every op on absent keys (a thrown "
+                "exception is a transition that must leave the state unchanged); states de-duplicated on the internal list_ (keys, values, "
+                "order), the map_ index (key -> list position) and its bucket count. "
+                "SplayTree quick: set flavour over keys {0..5} x {less/int, greater/int, less/Tracked}, multiset flavour over keys {0,1,2} with "
+                "multiplicity <= 3 x {less/int, greater/int, greater/Tracked}. Thorough: set less/int over {0..8}, greater/int and less/Tracked "
+                "over {0..7}; multiset less/int over {0,1,2} with multiplicity <= 5 and <= 12 nodes, greater/int and greater/Tracked with "
+                "multiplicity <= 4, less/int over {0..3} with multiplicity <= 2 and over {0,1} with multiplicity <= 5. Both tiers: an unguarded "
+                "2-key set configuration for ASan confirmation of dangling-node states. Ops insert, exists, find, erase(key), erase(node from "
+                "find), clear, all enabled in every state incl. the empty tree and after clear(); states de-duplicated on (size_, tree shape "
+                "with keys in pre-order with null markers). Every reached state is also destroyed under the allocation ledger / key registry. "
+                "states = distinct canonical states, transitions = real tlx calls compared with the reference",
         "assumptions": [
             "key universes and multiplicity caps as stated (the driver does not insert a key beyond its cap); int and one heap-owning key type",
             "pop() only on a non-empty cache (documented: the user checks size()); erase(node) only with a non-null node returned by find()",
